@@ -486,6 +486,17 @@ func (c *Canon) atom(e ast.Expr) *F {
 		case token.LAND, token.LOR:
 			return c.Formula(FromExpr(x))
 		case token.EQL, token.NEQ, token.LSS, token.GTR, token.LEQ, token.GEQ:
+			// (a - b) cmp 0  ==>  a cmp b (signed arithmetic, overflow disregarded)
+			if nx, ny, ok := subZero(x.X, x.Y, func(e ast.Expr) bool { return c.constOf(e) == "0" }, func(e ast.Expr) bool {
+				t := c.Info.TypeOf(e)
+				if t == nil {
+					return false
+				}
+				b, ok := t.Underlying().(*types.Basic)
+				return ok && b.Info()&types.IsInteger != 0 && b.Info()&types.IsUnsigned == 0
+			}, c.expandExpr); ok {
+				return c.atom(&ast.BinaryExpr{X: nx, Op: x.Op, Y: ny, OpPos: x.OpPos})
+			}
 			l, r := c.Term(x.X), c.Term(x.Y)
 			lc, rc := c.constOf(x.X), c.constOf(x.Y)
 			// boolean comparisons with true/false
@@ -647,4 +658,41 @@ func (c *Canon) TermOfObj(o types.Object) string {
 		return n
 	}
 	return o.Name()
+}
+
+// expandExpr replaces an identifier that is a single-assignment pure local by its definition.
+func (c *Canon) expandExpr(e ast.Expr) ast.Expr {
+	e = ast.Unparen(e)
+	if id, ok := e.(*ast.Ident); ok {
+		if o := c.Info.ObjectOf(id); o != nil {
+			if _, isRole := c.roles[o]; !isRole {
+				if def, ok := c.expand[o]; ok {
+					return ast.Unparen(def)
+				}
+			}
+		}
+	}
+	return e
+}
+
+// subZero recognises (a - b) op 0 and 0 op (a - b) and returns the operands to compare directly.
+func subZero(x, y ast.Expr, isZero func(ast.Expr) bool, signed func(ast.Expr) bool, expand func(ast.Expr) ast.Expr) (ast.Expr, ast.Expr, bool) {
+	try := func(d, z ast.Expr) (ast.Expr, ast.Expr, bool) {
+		if !isZero(z) {
+			return nil, nil, false
+		}
+		d = expand(d)
+		be, ok := d.(*ast.BinaryExpr)
+		if !ok || be.Op != token.SUB || !signed(be) {
+			return nil, nil, false
+		}
+		return be.X, be.Y, true
+	}
+	if a, b, ok := try(x, y); ok {
+		return a, b, true // (a-b) op 0 == a op b
+	}
+	if a, b, ok := try(y, x); ok {
+		return b, a, true // 0 op (a-b) == b op a
+	}
+	return nil, nil, false
 }
